@@ -75,8 +75,16 @@ def propagate_fft(wavefront, pixelscale, shape=None, oversample=2,
         # zero out the portion of scratch that we're going to use for the
         # propagation and then insert the Wavefront field(s) into scratch
         scratch[0:fft_shape[0], 0:fft_shape[1]] = 0
+        # only the part of each field that lies inside the wavefront's own shape
+        # belongs to it (wavefront.field crops the same way): insert into the
+        # centered window of that shape
+        nr = min(int(wavefront.shape[0]), int(fft_shape[0]))
+        nc = min(int(wavefront.shape[1]), int(fft_shape[1]))
+        r0 = fft_shape[0]//2 - nr//2
+        c0 = fft_shape[1]//2 - nc//2
+        window = scratch[r0:r0+nr, c0:c0+nc]
         for field in wavefront.data:
-            scratch[0:fft_shape[0], 0:fft_shape[1]] = lentil.field.insert(field, scratch[0:fft_shape[0], 0:fft_shape[1]])
+            window[...] = lentil.field.insert(field, window)
         field =_fft2(scratch[0:fft_shape[0], 0:fft_shape[1]])
 
     else:
